@@ -390,23 +390,78 @@ func c05Cap(c *Ctx, ct collapsingType) {
 				}
 				nGrow++
 				lt := tc.Of(ms.Len)
-				fromCap := false
-				sameLen := false
-				lt.walk(func(x *Term) bool {
-					if isMethodCall(x, "getNewLength") && strings.Contains(x.Sym, "."+tname+")") {
-						fromCap = true
+				// the length is bounded by the capped length: it IS the type's getNewLength(…) or the current
+				// length, or is obtained from such a value by subtracting, by min with anything, or by max with
+				// another bounded value. cap(bins) is NOT bounded (append over-allocates: 64 → 100 bins has cap 128).
+				var bounded func(x *Term, d int) bool
+				bounded = func(x *Term, d int) bool {
+					if x == nil || d > 6 {
+						return false
 					}
-					if x.Op == "builtin" && x.Sym == "len" {
-						sameLen = true // re-allocation with the current (already capped) length
+					switch {
+					case isMethodCall(x, "getNewLength") && strings.Contains(x.Sym, "."+tname+")"):
+						return true
+					case x.Op == "builtin" && x.Sym == "len":
+						return true
+					case x.Op == "const":
+						return true
+					case x.Op == "conv":
+						return bounded(x.Args[0], d+1)
+					case x.Op == "phi":
+						// an open-coded min/max/if: the worst case is max of the alternatives
+						es := tc.PhiEdges(x)
+						for _, e := range es {
+							if e.Key() == x.Key() || !bounded(e, d+1) {
+								return false
+							}
+						}
+						return len(es) > 0
+					case x.isBin("-"):
+						return bounded(x.Args[0], d+1)
+					case (x.Op == "call" && strings.HasSuffix(x.Sym, ".min") || x.Op == "builtin" && x.Sym == "min") && len(x.Args) == 2:
+						return bounded(x.Args[0], d+1) || bounded(x.Args[1], d+1)
+					case (x.Op == "call" && strings.HasSuffix(x.Sym, ".max") || x.Op == "builtin" && x.Sym == "max") && len(x.Args) == 2:
+						return bounded(x.Args[0], d+1) && bounded(x.Args[1], d+1)
 					}
-					return true
-				})
-				c.R.check(fromCap || sameLen, rule, fmt.Sprintf("%s.%s/growth-site", tname, m.Name()), shortFn(m), c.ipos(ms),
-					"the length of new bin storage comes from "+tname+".getNewLength (or equals the current length)", "make length "+lt.Key())
+					return false
+				}
+				c.R.check(bounded(lt, 0), rule, fmt.Sprintf("%s.%s/growth-site", tname, m.Name()), shortFn(m), c.ipos(ms),
+					"the length of new bin storage is bounded by "+tname+".getNewLength (the capped length) or the current length", "make length "+lt.Key())
 			}
 		}
 	}
 	c.R.floor(rule, tname+" bin-array allocation sites", nGrow, 3)
+	// the bin limit is a constant of the store: no method (declared or promoted) writes it, neither directly nor by
+	// overwriting the whole receiver (`*s = *other…` would import the other store's limit and collapsed flag)
+	ms := c.P.SSA.MethodSets.MethodSet(types.NewPointer(ct.t))
+	nM := 0
+	for i := 0; i < ms.Len(); i++ {
+		fn := c.P.SSA.MethodValue(ms.At(i))
+		if fn == nil {
+			continue
+		}
+		target := fn
+		if fn.Synthetic != "" {
+			target = underlyingOfWrapper(fn)
+		}
+		if target == nil || recvNamed(target) != ct.t {
+			continue // promoted methods see only the embedded store, which has no limit field
+		}
+		nM++
+		bad := ""
+		for l := range c.Mod.Mods[target] {
+			if l == "p0" {
+				bad = "overwrites the whole receiver"
+			}
+			if l == "p0."+ct.limitFld {
+				bad = "writes " + ct.limitFld
+			}
+		}
+		if bad != "" {
+			c.R.violate(rule, fmt.Sprintf("%s.%s/limit-is-constant", tname, target.Name()), shortFn(target), c.fpos(target), "no method changes the bin limit of an existing store (only constructors and the fresh object of Copy set it)", bad)
+		}
+	}
+	c.R.check(nM >= 10, rule, tname+"/limit-is-constant/methods-examined", tname, "", "the write sets of the type's own methods were examined", fmt.Sprintf("%d methods", nM))
 }
 
 func c05Normalize(c *Ctx, ct collapsingType) {
